@@ -195,6 +195,36 @@ def judge_shards(module, cfg, shard_paths, *, jvms=4, workers=4, env=None, timeo
     return verdicts, states, trans
 
 
+def corruption_control(module, cfg, recs, corrupt, wd, *, want=4, flagged=None):
+    """Negative control of the binding (DESIGN 9.3): corrupt one recorded field in a few
+    records that were accepted, judge the corrupted copies alone, and require that TLC
+    rejects every one of them.  corrupt(rec) returns a corrupted deep copy or None;
+    flagged(verdict) says whether a printed verdict is a rejection (default: anything that
+    is not a SKIP / drift / oracle line).  Returns the number of controls run."""
+    import copy
+    bad = []
+    for r in recs:
+        c = corrupt(copy.deepcopy(r))
+        if c is not None:
+            c["id"] = 10 ** 9 + len(bad)
+            bad.append(c)
+            if len(bad) >= want:
+                break
+    if not bad:
+        raise MachineryError(f"{module}: no record could be corrupted for the negative control")
+    shards = write_shards(bad, Path(wd) / "control", "ctl", 1000)
+    verdicts, _, _ = judge_shards(module, cfg, shards, jvms=1)
+    if flagged is None:
+        def flagged(v):
+            return not (v.get("v") == "SKIP" or "drift" in v or "oracle" in v)
+    hit = {v["id"] for v in verdicts if flagged(v)}
+    missed = [b["id"] for b in bad if b["id"] not in hit]
+    if missed:
+        raise MachineryError(f"{module}: {len(missed)} corrupted record(s) were accepted by the judge "
+                             f"(the trace specification does not bind the recorded field)")
+    return len(bad)
+
+
 # ----------------------------------------------------------------- driving
 def _drive_chunk(args):
     modname, funcname, chunk, extra = args
